@@ -383,7 +383,10 @@ class Conflict:
             tree: Working tree containing the files.
         """
         for fname in self.associated_filenames():
-            with contextlib.suppress(FileNotFoundError):
+            # The helper file is already gone when it does not exist, and
+            # also when one of its parent directories has since been replaced
+            # by a file (ENOTDIR).
+            with contextlib.suppress(FileNotFoundError, NotADirectoryError):
                 osutils.delete_any(tree.abspath(fname))
 
     def do(self, action, tree):
